@@ -81,7 +81,7 @@ def run(ctx):
             if o["accept"] != row["intended"]:
                 drift += 1
     for chain, st in stats.items():
-        if st["accepted_intended"] == 0 and not ctx.replay:
+        if st["accepted_intended"] == 0 and not ctx.replay and not ctx.violations:
             ctx.fail("vacuous: the real %s code accepted none of the rows the model accepts" % chain)
     if drift:
         ctx.note("drift (verdict differs from the model, inside the property): %d rows" % drift)
@@ -102,4 +102,4 @@ def run(ctx):
                                    "ont keys: ECDSA P-256 and Ed25519; other Ontology key types are not exercised"])
 
 
-CHAINS = ["ont"]
+CHAINS = ["ont", "neo", "neo3"]
